@@ -56,12 +56,12 @@ ObjCanon(ms) == LET ks == SortKeys({ms[i].k : i \in 1..Len(ms)}) IN
 
 \* ---------------------------------------------------------------------------------------------- numbers
 \* Decimal forms that are longer than 15 significant digits or near the ends of the double range: the value a decoder
-\* based on IEEE-754 binary64 (with an exact 64-bit integer path) yields, as the shortest decimal that identifies it.
+\* based on IEEE-754 binary64 yields, as the shortest decimal that identifies it (key and value: <digits>e<exponent>).
 LongForms == ( "123456789012345678901e0" :> "12345678901234568e4" ) @@
              ( "1234567890123456789e-19" :> "12345678901234568e-17" ) @@
-             ( "9223372036854775807e0" :> "9223372036854775807e0" ) @@
+             ( "9223372036854775807e0" :> "9223372036854776e3" ) @@
              ( "9223372036854775808e0" :> "9223372036854776e3" ) @@
-             ( "-9223372036854775808e0" :> "-9223372036854775808e0" ) @@
+             ( "-9223372036854775808e0" :> "-9223372036854776e3" ) @@
              ( "17976931348623157e292" :> "17976931348623157e292" ) @@
              ( "-17976931348623157e292" :> "-17976931348623157e292" ) @@
              ( "5e-324" :> "5e-324" ) @@
@@ -69,6 +69,8 @@ LongForms == ( "123456789012345678901e0" :> "12345678901234568e4" ) @@
              ( "1e308" :> "1e308" ) @@
              ( "30000000000000004e-17" :> "30000000000000004e-17" ) @@
              ( "3333333333333333e-16" :> "3333333333333333e-16" )
+\* 19-digit INTEGER literals (no fraction, no exponent) that fit a signed 64-bit integer keep their exact value
+LongInts == {"9223372036854775807e0", "-9223372036854775808e0"}
 
 RECURSIVE LeadZ(_)
 LeadZ(s) == IF s # <<>> /\ Head(s) = 0 THEN 1 + LeadZ(Tail(s)) ELSE 0
@@ -94,7 +96,7 @@ NumCanon(p) ==
   IN IF M = <<>> THEN [c |-> "#0", exact |-> TRUE, finite |-> TRUE]
      ELSE IF X >= 309 THEN [c |-> "#" \o sign \o "inf", exact |-> TRUE, finite |-> FALSE]
      ELSE IF X <= -325 THEN [c |-> "#0", exact |-> TRUE, finite |-> TRUE]
-     ELSE IF (Len(M) <= 15 /\ X >= -300 /\ X <= 300) \/ (isint /\ Len(p.idig) <= 18)
+     ELSE IF (Len(M) <= 15 /\ X >= -300 /\ X <= 300) \/ (isint /\ (Len(p.idig) <= 18 \/ form \in LongInts))
           THEN [c |-> "#" \o form, exact |-> TRUE, finite |-> TRUE]
      ELSE IF form \in DOMAIN LongForms THEN [c |-> "#" \o LongForms[form], exact |-> TRUE, finite |-> TRUE]
      ELSE [c |-> "#?", exact |-> FALSE, finite |-> TRUE]
